@@ -253,6 +253,9 @@ func init() {
 	Registry["C12"] = func(c *Ctx) int {
 		p := c12Plan(c.Quick())
 		if c.Worker >= 0 {
+			if strings.HasPrefix(c.Scen, "votes/") {
+				return c12VoteWorker(c)
+			}
 			return p.Worker(c)
 		}
 		if len(c.Args) == 2 && c.Args[0] == "--replay" {
@@ -262,9 +265,41 @@ func init() {
 		if res.EngineErr != "" {
 			return EngineError("%s", res.EngineErr)
 		}
+		maxStates := 60000
+		if !c.Quick() {
+			maxStates = 2000000
+		}
+		votes := map[string]interface{}{}
+		vStates, vTrans, vViol, vCapped := 0, 0, 0, false
+		for _, sp := range c12VoteSpecs(c.Quick()) {
+			st, e := c12VoteMaster(c, sp, maxStates)
+			if e != "" {
+				return EngineError("%s", e)
+			}
+			vStates += st.States
+			vTrans += st.Transitions
+			vViol += st.Violations
+			vCapped = vCapped || st.Capped
+			var w []string
+			for k := range st.Winners {
+				w = append(w, k)
+			}
+			votes[sp.Name] = map[string]interface{}{"members": sp.Members, "candidates": sp.Candidates, "links_down": sp.Down, "rounds": sp.Rounds, "max_lost_messages": sp.MaxLoss,
+				"states": st.States, "transitions": st.Transitions, "new_states_per_depth": st.PerDepth, "distinct_winning_candidacies": len(w), "state_cap_hit": st.Capped, "sample_complete_histories": st.Sample}
+			fmt.Printf("  votes %-36s states=%d transitions=%d depth=%d winners=%d violations=%d%s\n", sp.Name, st.States, st.Transitions, len(st.PerDepth), len(w), st.Violations, map[bool]string{true: " (state cap hit)", false: ""}[st.Capped])
+		}
+		res.Violations += vViol
 		cov := p.Coverage(res, "deviation-bounded DFS over the delivery order of vote / proposal / commit / announcement traffic (every network read, write, accept and every blocking is a choice point; handlers atomic) between two surviving members of a 3-member replica set after the leader's process was killed, with an optional kill-and-restart of one member from its saved metadata; a sampler evaluates every 20 virtual ms: accepted and committed numbers never decrease per member (also across the restart), never two leaders at once; at the end: a leader exists, it is the member with the newest log, persisted and majority-acknowledged holds are held by it; non-trivial = every execution (two candidates compete)", c.Quick())
-		c.WriteEvidence("exploration", cov, []string{"3 members, 2 concurrent candidates; 4-5 member clusters, arbiters and weight-0 members are not explored", "coarse scheduling: message handlers are atomic", "message loss is not injected beyond the dead leader's connections; kill -9 of real OS processes is replaced by in-process group kill"}, res.Violations)
-		fmt.Printf("C12 %s: %d executions, %d distinct traces, %d violations\n", c.Tier, res.Total.Executions, len(res.Total.Traces), res.Violations)
+		cov["message_level_search"] = votes
+		cov["states"] = vStates
+		cov["transitions"] = vTrans
+		cov["traces_validated_against_impl"] = vTrans
+		if vCapped {
+			cov["exhaustive"] = false
+		}
+		c.WriteEvidence("exploration", cov, []string{"message-level search: explicit-state BFS over fate and order of every vote / proposal / commit request of 2-3 simultaneous candidates on real ArbiterManager objects (3-5 members incl. weight-0 members and arbiters, log positions across the wrap-around, permanently down links, bounded number of lost requests / replies); a candidate's own acceptance happens when its phase starts; member restart is covered by the full-node scenario only",
+			"full-node scenarios: 3 members, 2 concurrent candidates", "coarse scheduling: message handlers are atomic", "message loss is not injected beyond the dead leader's connections; kill -9 of real OS processes is replaced by in-process group kill"}, res.Violations)
+		fmt.Printf("C12 %s: %d executions, %d distinct traces; message-level search: %d states, %d transitions; %d violations\n", c.Tier, res.Total.Executions, len(res.Total.Traces), vStates, vTrans, res.Violations)
 		if res.Violations > 0 {
 			return 1
 		}
